@@ -266,7 +266,6 @@ impl Array8 {
     pub fn deserialize(
         mut cursor: SketchSlice,
         lg_config_k: u8,
-        compact: bool,
         ooo: bool,
     ) -> Result<Self, Error> {
         let k = 1usize << lg_config_k;
@@ -288,13 +287,11 @@ impl Array8 {
 
         // Read byte array from offset HLL_BYTE_ARR_START
         let mut data = vec![0u8; k];
-        if !compact {
-            cursor
-                .read_exact(&mut data)
-                .map_err(insufficient_data("data"))?;
-        } else {
-            cursor.advance(k as u64);
-        }
+        // The register block is present whether or not the COMPACT flag is set (for
+        // HLL arrays the flag only concerns the form of the Hll4 exception list).
+        cursor
+            .read_exact(&mut data)
+            .map_err(insufficient_data("data"))?;
 
         // Create estimator and restore state
         let mut estimator = HipEstimator::new(lg_config_k);
